@@ -269,6 +269,38 @@ func bezierPart(c *vlib.Ctx) (int64, int64, any) {
 					jb.Transitions++
 				}
 			}
+			// a middle vertex with Handle(theta, fwd, rev) of different lengths: two cubic spans whose inner control
+			// points are vertex + fwd along theta (outgoing) and vertex - rev along theta (incoming)
+			for _, th := range []float64{0, 40, 135, 250} {
+				for _, fr := range [][2]float64{{1, 1}, {2, 0.5}, {0.25, 1.5}, {3, 1}} {
+					p0, pm, p3 := v2.Vec{}, v2.Vec{X: 3, Y: 1}, v2.Vec{X: 6, Y: -0.5}
+					a := th * math.Pi / 180
+					dir := v2.Vec{X: math.Cos(a), Y: math.Sin(a)}
+					sdf.VerifSetRand(&src{})
+					b := sdf.NewBezier()
+					b.AddV2(p0).HandleFwd(math.Pi/3, 1)
+					b.AddV2(pm).Handle(a, fr[0], fr[1])
+					b.AddV2(p3).HandleRev(2*math.Pi/3, 1)
+					pg, err := b.Polygon()
+					jb.States++
+					jb.Transitions++
+					desc := map[string]any{"theta_deg": th, "fwd": fr[0], "rev": fr[1]}
+					if err != nil {
+						report("Bezier.Handle|error", fmt.Sprint(err), desc)
+						continue
+					}
+					span1 := []v2.Vec{p0, add(p0, v2.Vec{X: math.Cos(math.Pi / 3), Y: math.Sin(math.Pi / 3)}), sub(pm, mul(dir, fr[1])), pm}
+					span2 := []v2.Vec{pm, add(pm, mul(dir, fr[0])), add(p3, v2.Vec{X: math.Cos(2 * math.Pi / 3), Y: math.Sin(2 * math.Pi / 3)}), p3}
+					for i, q := range pg.Vertices() {
+						_, d1 := paramOf(span1, q, 0)
+						_, d2 := paramOf(span2, q, 0)
+						if math.Min(d1, d2) > 1e-9 {
+							report("Bezier.Handle|vertex-not-on-curve-defined-by-handles", fmt.Sprintf("middle vertex Handle(%g deg, fwd %g, rev %g): vertex %d = %v is %g from both cubic spans", th, fr[0], fr[1], i, q, math.Min(d1, d2)), desc)
+							break
+						}
+					}
+				}
+			}
 			// handle specifications: end points with forward / reverse handles => cubic control points
 			for _, t1 := range thetas {
 				for _, r1 := range rs {
